@@ -128,6 +128,24 @@ pub fn tag_of(f: &NetworkFilter) -> Option<String> {
 }
 pub fn live_rules(rules: &[NetworkFilter]) -> Vec<&NetworkFilter> {
     let bad: HashSet<u64> = rules.iter().filter(|f| f.is_badfilter()).map(|f| f.get_id_without_badfilter()).collect();
+    // cross-check by TEXT: a rule whose line is repeated with `badfilter` appended as its last option is
+    // cancelled, whatever the crate's id function says
+    for b in rules.iter().filter(|f| f.is_badfilter()) {
+        let Some(lb) = b.raw_line.as_ref() else { continue };
+        for f in rules.iter().filter(|f| !f.is_badfilter()) {
+            let Some(l) = f.raw_line.as_ref() else { continue };
+            let twin = **lb == format!("{},badfilter", l) || (!l.contains('$') && **lb == format!("{}$badfilter", l));
+            if twin && !bad.contains(&f.get_id()) {
+                TEXT_MISMATCHES.with(|m| {
+                    let mut m = m.borrow_mut();
+                    if m.len() < 50 {
+                        m.push((format!("the line {:?} is the line {:?} with badfilter appended, but the crate's ids differ: the rule is not cancelled", lb, l),
+                            serde_json::json!({"kind": "text_reading", "rules": [(**l).clone(), (**lb).clone()], "url": "https://x.com/", "source": "https://a.com/", "type": "script"})));
+                    }
+                });
+            }
+        }
+    }
     rules.iter().filter(|f| !f.is_badfilter() && !bad.contains(&f.get_id())).collect()
 }
 /// Rule-by-rule evaluation with the documented precedence (independent of the engine's index).
